@@ -3,7 +3,7 @@ from __future__ import annotations
 
 import ast
 
-from ..fdai import Interp, PyRaise, Unknown, explore, freeze, Imprecise, cmp_outcome
+from ..fdai import Interp, PyRaise, SkipPath, Unknown, explore, freeze, Imprecise, cmp_outcome
 from ..loader import AnchorError, is_self_attr, short, src, walk_no_nested
 from ..locks import LockAnalysis, regions
 from ..resolve import Resolver
@@ -67,6 +67,23 @@ def run(p, led, tier):
     REN = dict_key_field(p, tel, "get_statistics", "renewal_count")
     REASON = dict_key_field(p, tel, "get_statistics", "senescence_reason")
 
+    def _cfg(**over):
+        """an arbitrary *valid* configuration: typed unknowns (limits are integers, durations reals, the renewal switch a bool)"""
+        c = {"max_operations": Unknown("max_operations", kind="int"), "error_threshold": Unknown("error_threshold", kind="int"),
+             "allow_renewal": Unknown("allow_renewal", kind="bool"), "silent": True,
+             "max_lifetime_hours": Unknown("max_lifetime_hours", kind="real"), "idle_timeout_minutes": Unknown("idle_timeout_minutes", kind="real"),
+             "on_phase_change": None, "on_senescence": None}
+        c.update(over)
+        return c
+
+    def _new(it, cfg):
+        """construct the lifecycle; a constructor that rejects the chosen configuration ends the path (the tables quantify over
+        the configurations the class accepts)"""
+        try:
+            return it.instantiate(tel, [], cfg)
+        except PyRaise as e:
+            raise SkipPath(f"constructor rejects the configuration: {e.exc!r}")
+
     def _written_with_clock(mname):
         """private fields that the public method `mname` sets to the current time on some path from NASCENT / ACTIVE
         (decided by interpretation: the clock is a symbolic value named 'clock…')"""
@@ -77,8 +94,7 @@ def run(p, led, tier):
         for start_ in ("NASCENT", "ACTIVE"):
             def go(o, _s=start_):
                 it = Interp(p, o)
-                obj = it.instantiate(tel, [], {"max_operations": Unknown("max_operations"), "error_threshold": Unknown("error_threshold"), "allow_renewal": True, "silent": True,
-                                               "max_lifetime_hours": Unknown("max_lifetime_hours"), "idle_timeout_minutes": Unknown("idle_timeout_minutes"), "on_phase_change": None, "on_senescence": None})
+                obj = _new(it, _cfg(allow_renewal=True))
                 obj.fields[PH] = it.enum_member(phase, _s)
                 it.events.clear()
                 it.watch_fields = {("Telomere", "*")}
@@ -130,13 +146,7 @@ def run(p, led, tier):
 
     def make(o, start, overrides=None):
         it = Interp(p, o)
-        cfgargs = {"max_operations": Unknown("max_operations"), "error_threshold": Unknown("error_threshold"),
-                   "allow_renewal": Unknown("allow_renewal"), "silent": True,
-                   "max_lifetime_hours": Unknown("max_lifetime_hours"), "idle_timeout_minutes": Unknown("idle_timeout_minutes"),
-                   "on_phase_change": None, "on_senescence": None}
-        if overrides:
-            cfgargs.update(overrides)
-        obj = it.instantiate(tel, [], cfgargs)
+        obj = _new(it, _cfg(**(overrides or {})))
         obj.fields[PH] = it.enum_member(phase, start)
         # state invariant (verified inductively below, rule R2): a senescence reason is recorded only in
         # SENESCENT / APOPTOTIC / TERMINATED; there it may be anything
@@ -220,7 +230,11 @@ def run(p, led, tier):
     for start in ("APOPTOTIC", "TERMINATED"):
         paths = table[("tick", start)]
         key = f"Telomere.tick ▸ from {start}"
-        bad = [r for _, r in paths if r["changed"] or r["ret"] is not False or r["raised"]]
+        # a call rejected for its arguments (an exception before anything is recorded) is not a tick either; a terminal
+        # lifecycle that answers *every* tick with an exception does not "return"
+        bad = [r for _, r in paths if r["changed"] or (not r["raised"] and r["ret"] is not False)]
+        if not bad and all(r["raised"] for _, r in paths):
+            bad = [r for _, r in paths]
         if bad:
             led.fail("C09-R3", key, where(tick, tick.node), f"a terminal lifecycle still ticks: {len(bad)}/{len(paths)} path(s) change state or do not return False; writes e.g. {[(w[2]) for w in bad[0]['writes']][:4]}")
         else:
@@ -254,10 +268,7 @@ def run(p, led, tier):
             def go(o, _m=m, _start=start):
                 it = LinInterp(p, o)
                 mx, rem = Lin.sym("max_operations"), Lin.sym("remaining")
-                obj = it.instantiate(tel, [], {"max_operations": 0, "error_threshold": Unknown("error_threshold"), "allow_renewal": Unknown("allow_renewal"), "silent": True,
-                                               "max_lifetime_hours": Unknown("max_lifetime_hours"), "idle_timeout_minutes": Unknown("idle_timeout_minutes"),
-                                               "on_phase_change": None, "on_senescence": None})
-                obj.fields["max_operations"] = mx
+                obj = _new(it, _cfg(max_operations=mx))            # the configured maximum is the symbol the writes are compared with
                 obj.fields[LEN] = rem
                 obj.fields[PH] = it.enum_member(phase, _start)
                 if _start in ("SENESCENT", "APOPTOTIC", "TERMINATED") and REASON in obj.fields:
@@ -293,7 +304,7 @@ def run(p, led, tier):
                         out.append(("w", repr(nl), lo, hi, dec))
                 return out
             try:
-                paths = explore(go, max_paths=400)
+                paths = explore(go, max_paths=4000)
             except Imprecise as e:
                 raise AnchorError(f"affine interpretation of {m.qual} from {start} is imprecise: {e}")
             npaths += len(paths)
@@ -323,14 +334,14 @@ def run(p, led, tier):
         raise AnchorError("Telomere.renew not found")
     for start in PHASES:
         paths = explore(lambda o: run_method(o, renew, start, {"allow_renewal": False}))
-        bad = [r for _, r in paths if r["changed"] or r["ret"] is not False]
+        bad = [r for _, r in paths if r["changed"] or (not r["raised"] and r["ret"] is not False)] or ([r for _, r in paths] if all(r["raised"] for _, r in paths) else [])
         key = f"Telomere.renew ▸ disallowed ▸ from {start}"
         if bad:
             led.fail("C09-R6", key, where(renew, renew.node), f"with allow_renewal=False renew still changes state or reports success on {len(bad)}/{len(paths)} path(s)")
         else:
             led.ok("C09-R6", key, where(renew, renew.node), f"{len(paths)} path(s): nothing written, False returned")
     paths = table[("renew", "TERMINATED")]
-    bad = [r for _, r in paths if r["changed"] or r["ret"] is not False]
+    bad = [r for _, r in paths if r["changed"] or (not r["raised"] and r["ret"] is not False)] or ([r for _, r in paths] if all(r["raised"] for _, r in paths) else [])
     key = "Telomere.renew ▸ from TERMINATED"
     if bad:
         led.fail("C09-R6", key, where(renew, renew.node), f"a terminated lifecycle is renewed on {len(bad)}/{len(paths)} path(s)")
